@@ -74,9 +74,11 @@ def load_allow():
     return json.load(open(p))
 
 
-def allowed(allow, key, label):
+def allowed(allow, key, label, closed_by=''):
     lab = re.sub(r'@\d+', '', label)
     for a in allow:
         if a['function'] == key and re.fullmatch(a['label'], lab):
+            if a.get('closed_by') and not re.search(a['closed_by'], closed_by or ''):
+                continue
             return True
     return False
